@@ -525,7 +525,12 @@ func c02GenSidecar(rt *rapid.T, allowZeroBlobs bool) *c02Sidecar {
 // c02GenTx draws a transaction description. blobShare is the chance (in %) that a
 // blob tx carries a sidecar.
 func c02GenTx(rt *rapid.T, sidecarPct int, allowZeroBlobs bool) (*c02Tx, string) {
-	x := &c02Tx{typ: byte(c02Pick(rt, "type", 5))}
+	return c02GenTxOf(rt, byte(c02Pick(rt, "type", 5)), sidecarPct, allowZeroBlobs)
+}
+
+// c02GenTxOf draws a transaction description of the given type.
+func c02GenTxOf(rt *rapid.T, typ byte, sidecarPct int, allowZeroBlobs bool) (*c02Tx, string) {
+	x := &c02Tx{typ: typ}
 	wide := 40 // big.Int fields have no size limit in RLP
 	if x.typ == BlobTxType || x.typ == SetCodeTxType {
 		wide = 32
@@ -1173,6 +1178,41 @@ func c02Mutate(rt *rapid.T, x *c02Tx) ([]byte, string) {
 	}
 }
 
+// c02ForgeSidecar builds blob-tx envelopes whose sidecar wrapper deviates from the
+// two accepted layouts (v0: [tx, blobs, commitments, proofs]; v1: [tx, 1, blobs,
+// commitments, proofs]). The last return value says whether the result is valid.
+func c02ForgeSidecar(rt *rapid.T, x *c02Tx) ([]byte, string, bool) {
+	sc := x.sidecar
+	in := x.inner()
+	blobs, comms, proofs := c02BytesList(sc.blobs), c02BytesList(sc.commitments), c02BytesList(sc.proofs)
+	var w refrlp.Item
+	what, valid := "", false
+	switch c02Pick(rt, "sc-forge", 7) {
+	case 0:
+		w, what = refrlp.L(in, refrlp.S(nil), blobs, comms, proofs), "sidecar-version-0-in-v1-layout"
+	case 1:
+		v := rapid.SampledFrom([]uint64{2, 3, 0x7f, 0x80, 0xff, 0x100}).Draw(rt, "sc-forge-version")
+		w, what = refrlp.L(in, refrlp.Uint(v), blobs, comms, proofs), "sidecar-version-unsupported"
+	case 2:
+		w, what = refrlp.L(in, refrlp.S([]byte{0, 1}), blobs, comms, proofs), "sidecar-version-leading-zero"
+	case 3:
+		w, what = refrlp.L(in, refrlp.Uint(1), blobs, comms), "sidecar-missing-list"
+	case 4:
+		w, what = refrlp.L(in, blobs, comms, proofs, refrlp.S(nil)), "sidecar-extra-elem"
+	case 5:
+		w, what = refrlp.L(in, refrlp.L(refrlp.Uint(1)), blobs, comms, proofs), "sidecar-version-as-list"
+	default:
+		// the same content under the other (valid) layout
+		if sc.version == 0 {
+			w = refrlp.L(in, refrlp.Uint(1), blobs, comms, proofs)
+		} else {
+			w = refrlp.L(in, blobs, comms, proofs)
+		}
+		what, valid = "sidecar-other-valid-layout", true
+	}
+	return append([]byte{BlobTxType}, refrlp.Encode(w)...), what, valid
+}
+
 func c02PropBytes(st *vs.S) func(rt *rapid.T) {
 	return func(rt *rapid.T) {
 		var c *vs.Case
@@ -1181,9 +1221,13 @@ func c02PropBytes(st *vs.S) func(rt *rapid.T) {
 		}
 		var b []byte
 		var what string
-		mode := []string{"mutated", "mutated", "mutated", "mutated", "mutated", "valid", "arbitrary", "arbitrary-typed"}[c02Pick(rt, "mode", 8)]
+		mode := []string{"mutated", "mutated", "mutated", "mutated", "mutated", "valid", "arbitrary", "arbitrary-typed", "sidecar-forged"}[c02Pick(rt, "mode", 9)]
 		var x *c02Tx
+		mustAccept := false
 		switch mode {
+		case "sidecar-forged":
+			x, _ = c02GenTxOf(rt, BlobTxType, 100, true)
+			b, what, mustAccept = c02ForgeSidecar(rt, x)
 		case "valid":
 			x, _ = c02GenTx(rt, 25, true)
 			b = x.encoding(true)
@@ -1197,8 +1241,8 @@ func c02PropBytes(st *vs.S) func(rt *rapid.T) {
 		}
 		// binary envelope
 		dx, accepted := c02TryBinary(rt, b)
-		if mode == "valid" && !accepted {
-			rt.Fatalf("valid %s envelope rejected: %s", x.typeName(), c02Hex(b))
+		if (mode == "valid" || mustAccept) && !accepted {
+			rt.Fatalf("valid %s envelope (%s %s) rejected: %s", x.typeName(), mode, what, c02Hex(b))
 		}
 		// list-element form of the same bytes, plus forged string headers around typed payloads
 		nb := c02NetworkForm(b)
@@ -1233,13 +1277,14 @@ func c02PropBytes(st *vs.S) func(rt *rapid.T) {
 			c.Classf("accepted:%v", accepted)
 			if accepted {
 				c.Class("accepted-type:" + dx.typeName())
-				if mode == "mutated" {
+				if mode == "mutated" || mode == "sidecar-forged" {
 					c.Class("mutated-but-accepted:" + what)
 				}
 			}
 			c.Class("net:" + netMode)
 			forged := what == "sloppy-header" || ((netMode == "long-form-string-header" || netMode == "leading-zero-string-length") && !bytes.Equal(nb, c02NetworkForm(b)))
-			nt := (mode == "mutated" && accepted) || forged
+			forged = forged || (mode == "sidecar-forged" && !mustAccept)
+			nt := ((mode == "mutated" || mode == "sidecar-forged") && accepted) || forged
 			c.NonTrivial(nt, string(c02Keccak(b, []byte(netMode)).Bytes()))
 			c.Sample(nt, func() any {
 				return map[string]any{"mode": mode, "mutation": what, "input": c02Hex(b), "accepted": accepted, "network_form": netMode, "network_accepted": netAccepted}
